@@ -284,6 +284,191 @@ fn handle(line: &str) -> String {
                 "same".to_string()
             }
         }
+        "scenario" => {
+            // <name>: the builder scenario of that name (engines/harnesses_build.py: scenario()) through the public API; answers ok <hex of the package>
+            let src = std::env::temp_dir().join(format!("rpm-native-replay-src-{}", std::process::id()));
+            std::fs::write(&src, b"x").unwrap();
+            let mut b = rpm::PackageBuilder::new("n", "1", "MIT", "noarch", "s").compression(rpm::CompressionType::None);
+            let sl = |t: &str| rpm::Scriptlet::new(t).flags(rpm::ScriptletFlags::EXPAND).prog(vec!["/bin/sh", "-e"]);
+            let r: Result<rpm::PackageBuilder, rpm::Error> = (|| {
+                match p[1] {
+                    "files2" => {
+                        b = b.with_file(&src, rpm::FileOptions::new("/d/f0"))?;
+                        b = b.with_file(&src, rpm::FileOptions::new("/e/f1").user("u").group("g"))?;
+                    }
+                    "scriptlets" => {
+                        b = b.pre_install_script(sl("echo pre")).post_install_script(sl("echo pos")).pre_uninstall_script(sl("echo pre")).post_uninstall_script(sl("echo pos"))
+                            .pre_trans_script(sl("echo pre")).post_trans_script(sl("echo pos")).pre_untrans_script(sl("echo pre")).post_untrans_script(sl("echo pos"));
+                    }
+                    "scriptlets_plain" => {
+                        b = b.pre_install_script("true").post_install_script("true").pre_uninstall_script("true").post_uninstall_script("true")
+                            .pre_trans_script("true").post_trans_script("true").pre_untrans_script("true").post_untrans_script("true");
+                    }
+                    "deps" => {
+                        let d = |n: &str| rpm::Dependency::eq(n, "1");
+                        b = b.requires(d("xre")).provides(d("xpr")).obsoletes(d("xob")).conflicts(d("xco")).recommends(d("xre")).suggests(d("xsu")).enhances(d("xen")).supplements(d("xsu"));
+                    }
+                    "caps_first" => {
+                        b = b.with_file(&src, rpm::FileOptions::new("/d/a").caps("cap_chown=ep")?)?;
+                        b = b.with_file(&src, rpm::FileOptions::new("/d/b"))?;
+                    }
+                    "caps_last" => {
+                        b = b.with_file(&src, rpm::FileOptions::new("/d/a"))?;
+                        b = b.with_file(&src, rpm::FileOptions::new("/d/b").caps("cap_chown=ep")?)?;
+                    }
+                    _ => {}
+                }
+                Ok(b)
+            })();
+            let _ = std::fs::remove_file(&src);
+            match r.and_then(|b| b.build()) {
+                Err(e) => format!("err {:?}", e).replace(' ', "_"),
+                Ok(pkg) => {
+                    let mut o = Vec::new();
+                    pkg.write(&mut o).unwrap();
+                    format!("ok {}", hexb(&o))
+                }
+            }
+        }
+        "readback" => {
+            // <field> <hex value>: set one builder field, build, read it back through the matching accessor
+            let v = if p[2] == "-" { String::new() } else { unhex(p[2]) };
+            let f = p[1];
+            let ctor = |k: &str| if f == k { v.clone() } else { "x".to_string() };
+            let mut b = rpm::PackageBuilder::new(&ctor("name"), &ctor("version"), &ctor("license"), &ctor("arch"), &ctor("summary")).compression(rpm::CompressionType::None);
+            b = match f {
+                "release" => b.release(v.clone()), "url" => b.url(v.clone()), "vcs" => b.vcs(v.clone()), "description" => b.description(v.clone()), "vendor" => b.vendor(v.clone()),
+                "packager" => b.packager(v.clone()), "group" => b.group(v.clone()), "build_host" => b.build_host(v.clone()), "cookie" => b.cookie(v.clone()),
+                "epoch" => b.epoch(7),
+                _ => b,
+            };
+            match b.build() {
+                Err(e) => format!("build-err {:?}", e).replace(' ', "_"),
+                Ok(pkg) => {
+                    let m = &pkg.metadata;
+                    let got: Result<String, rpm::Error> = match f {
+                        "name" => m.get_name().map(|x| x.to_string()), "version" => m.get_version().map(|x| x.to_string()), "license" => m.get_license().map(|x| x.to_string()),
+                        "arch" => m.get_arch().map(|x| x.to_string()), "summary" => m.get_summary().map(|x| x.to_string()), "release" => m.get_release().map(|x| x.to_string()),
+                        "url" => m.get_url().map(|x| x.to_string()), "vcs" => m.get_vcs().map(|x| x.to_string()), "description" => m.get_description().map(|x| x.to_string()),
+                        "vendor" => m.get_vendor().map(|x| x.to_string()), "packager" => m.get_packager().map(|x| x.to_string()), "group" => m.get_group().map(|x| x.to_string()),
+                        "build_host" => m.get_build_host().map(|x| x.to_string()), "cookie" => m.get_cookie().map(|x| x.to_string()),
+                        "epoch" => m.get_epoch().map(|x| if x == 7 { v.clone() } else { format!("epoch {}", x) }),
+                        _ => Ok(v.clone()),
+                    };
+                    match got {
+                        Ok(g) if g == v => "same".to_string(),
+                        Ok(g) => format!("differs: {}", hex(&g)),
+                        Err(e) => format!("accessor-err {:?}", e).replace(' ', "_"),
+                    }
+                }
+            }
+        }
+        "readback2" => {
+            // <scriptlets_prog|scriptlets_plain|deps|files>: fixed values through the public API, read back with the matching accessors
+            let src = std::env::temp_dir().join(format!("rpm-native-replay-src-{}", std::process::id()));
+            std::fs::write(&src, b"x").unwrap();
+            let mut b = rpm::PackageBuilder::new("n", "1", "MIT", "noarch", "s").compression(rpm::CompressionType::None).source_date(1_600_000_000u32);
+            let names = ["pre_install", "post_install", "pre_uninstall", "post_uninstall", "pre_trans", "post_trans", "pre_untrans", "post_untrans"];
+            let mk = |i: usize, prog: bool| {
+                let s = rpm::Scriptlet::new(format!("t{}", i)).flags(rpm::ScriptletFlags::from_bits_retain(0x8000_0000 | i as u32));
+                if prog { s.prog(vec![format!("p{}", i), format!("q{}", i)]) } else { s }
+            };
+            let dep = |k: usize, j: usize| rpm::Dependency { name: format!("n{}{}", k, j), flags: rpm::DependencyFlags::from_bits_retain(0x4000_0001 + (k * 2 + j) as u32), version: format!("v{}{}", k, j) };
+            let mut bad: Vec<String> = Vec::new();
+            match p[1] {
+                "scriptlets_prog" | "scriptlets_plain" => {
+                    let prog = p[1] == "scriptlets_prog";
+                    b = b.pre_install_script(mk(0, prog)).post_install_script(mk(1, prog)).pre_uninstall_script(mk(2, prog)).post_uninstall_script(mk(3, prog))
+                        .pre_trans_script(mk(4, prog)).post_trans_script(mk(5, prog)).pre_untrans_script(mk(6, prog)).post_untrans_script(mk(7, prog));
+                    let pkg = match b.build() { Ok(p) => p, Err(e) => return format!("build-err {:?}", e).replace(' ', "_") };
+                    let m = &pkg.metadata;
+                    let got = [m.get_pre_install_script(), m.get_post_install_script(), m.get_pre_uninstall_script(), m.get_post_uninstall_script(),
+                               m.get_pre_trans_script(), m.get_post_trans_script(), m.get_pre_untrans_script(), m.get_post_untrans_script()];
+                    for (i, g) in got.iter().enumerate() {
+                        let w = mk(i, prog);
+                        match g {
+                            Ok(s) if s.script == w.script && s.flags == w.flags && s.program == w.program => {}
+                            Ok(s) => bad.push(format!("{}:{}/{:?}/{:?}", names[i], s.script, s.flags.map(|f| f.bits()), s.program).replace(' ', "")),
+                            Err(_) => bad.push(format!("{}:err", names[i])),
+                        }
+                    }
+                }
+                "deps" => {
+                    for j in 0..2 {
+                        b = b.requires(dep(0, j)).provides(dep(1, j)).obsoletes(dep(2, j)).conflicts(dep(3, j)).recommends(dep(4, j)).suggests(dep(5, j)).enhances(dep(6, j)).supplements(dep(7, j));
+                    }
+                    let pkg = match b.build() { Ok(p) => p, Err(e) => return format!("build-err {:?}", e).replace(' ', "_") };
+                    let m = &pkg.metadata;
+                    let got = [m.get_requires(), m.get_provides(), m.get_obsoletes(), m.get_conflicts(), m.get_recommends(), m.get_suggests(), m.get_enhances(), m.get_supplements()];
+                    for (k, g) in got.iter().enumerate() {
+                        match g {
+                            Ok(v) => {
+                                let mut pos = 0;
+                                for j in 0..2 {
+                                    match v[pos..].iter().position(|d| *d == dep(k, j)) { Some(q) => pos += q + 1, None => { bad.push(format!("kind{}:dep{}missing", k, j)); break; } }
+                                }
+                            }
+                            Err(_) => bad.push(format!("kind{}:err", k)),
+                        }
+                    }
+                }
+                _ => {
+                    b = b.with_file(&src, rpm::FileOptions::new("/d/f0").user("u0").group("g0").mode(rpm::FileMode::regular(0o4751)).is_config()).unwrap();
+                    let pkg = match b.build() { Ok(p) => p, Err(e) => return format!("build-err {:?}", e).replace(' ', "_") };
+                    match pkg.metadata.get_file_entries() {
+                        Ok(v) if v.len() == 1 => {
+                            let f = &v[0];
+                            let want_digest = { use sha2::Digest; let mut h = sha2::Sha256::new(); h.update(b"x"); h.finalize().iter().map(|x| format!("{:02x}", x)).collect::<String>() };
+                            if f.path != std::path::PathBuf::from("/d/f0") { bad.push("path".into()); }
+                            if f.mode != rpm::FileMode::regular(0o4751) { bad.push("mode".into()); }
+                            if f.ownership.user != "u0" || f.ownership.group != "g0" { bad.push("owner".into()); }
+                            if f.size != 1 { bad.push("size".into()); }
+                            if !f.flags.contains(rpm::FileFlags::CONFIG) { bad.push("flags".into()); }
+                            if f.digest.as_ref().map(|d| d.as_hex().to_string()) != Some(want_digest) { bad.push("digest".into()); }
+                            if u32::from(f.modified_at) > 1_600_000_000 { bad.push("mtime".into()); }
+                        }
+                        _ => bad.push("entries".into()),
+                    }
+                }
+            }
+            let _ = std::fs::remove_file(&src);
+            if bad.is_empty() { "same".to_string() } else { format!("differs: {}", bad.join(",")) }
+        }
+        "files_rt" => {
+            // <size,size,...>: files of those sizes (distinct contents) added in reverse order, built, iterated with Package::files()
+            let sizes: Vec<usize> = p.get(1).map(|s| s.split(',').filter_map(|x| x.parse().ok()).collect()).unwrap_or_default();
+            let dir = std::env::temp_dir().join(format!("rpm-native-replay-rt-{}", std::process::id()));
+            let _ = std::fs::create_dir_all(&dir);
+            let mut b = rpm::PackageBuilder::new("n", "1", "MIT", "noarch", "s").compression(rpm::CompressionType::None);
+            let content = |i: usize, n: usize| (0..n).map(|k| (17 * i + 31 * k + 1) as u8).collect::<Vec<u8>>();
+            for i in (0..sizes.len()).rev() {
+                let f = dir.join(format!("f{}", i));
+                std::fs::write(&f, content(i, sizes[i])).unwrap();
+                b = b.with_file(&f, rpm::FileOptions::new(format!("/d/f{}", i))).unwrap();
+            }
+            let pkg = b.build();
+            let _ = std::fs::remove_dir_all(&dir);
+            let pkg = match pkg { Ok(p) => p, Err(e) => return format!("build-err {:?}", e).replace(' ', "_") };
+            let mut bad: Vec<String> = Vec::new();
+            match pkg.files() {
+                Err(_) => bad.push("files-err".into()),
+                Ok(it) => {
+                    let v: Vec<_> = it.collect();
+                    if v.len() != sizes.len() { bad.push(format!("{}-entries", v.len())); }
+                    for (i, e) in v.iter().enumerate() {
+                        match e {
+                            Err(_) => bad.push(format!("entry{}-err", i)),
+                            Ok(f) => {
+                                if i < sizes.len() && (f.content != content(i, sizes[i]) || f.metadata.size != sizes[i] || f.metadata.path != std::path::PathBuf::from(format!("/d/f{}", i))) {
+                                    bad.push(format!("entry{}-mismatch", i));
+                                }
+                            }
+                        }
+                    }
+                }
+            }
+            if bad.is_empty() { "same".to_string() } else { format!("differs: {}", bad.join(",")) }
+        }
         "wsink" => {
             // <k> <fail_at> <intr_at> <package|metadata>: write a freshly built package into a scripted sink; every failure position is tried
             let k: usize = p[1].parse().unwrap_or(0);
